@@ -484,6 +484,10 @@ const (
 type CancelPt struct {
 	Kind CancelKind
 	I    int
+	// ByWatcher: CBeforeSync spelled as a status watcher that reports a fatal error INSTEAD of its sync
+	// event and stops (the context stays live). Same observable run: plan event, one error event, closed
+	// channel, no task started. Not part of the Coq scenario.
+	ByWatcher bool
 }
 
 func (c CancelPt) Coq() string {
@@ -534,6 +538,9 @@ func (e Env) Text() string {
 	}
 	if e.Cancel.Kind != CNever {
 		p = append(p, strings.Trim(e.Cancel.Coq(), "()"))
+		if e.Cancel.ByWatcher {
+			p = append(p, "(spelled: watcher error before sync)")
+		}
 	}
 	if e.WatchErrAt >= 0 {
 		p = append(p, fmt.Sprintf("watcherr@%d", e.WatchErrAt))
